@@ -14,6 +14,7 @@
 #include <thread>
 #include <chrono>
 #include <mutex>
+#include <optional>
 #include <csignal>
 #include <unistd.h>
 
@@ -44,7 +45,7 @@ static bool q_parked(queue_t &q, std::size_t h) {
 static std::size_t s_handle(sub_t &s) { return s.*(&s_peek::_h); }
 static bool s_has_val(sub_t &s) { return (s.*(&s_peek::_val)).has_value(); }
 
-enum phase_t { IDLE, FETCH, PARKED, BLOCKED, COPARKED, DONE, GONE };
+enum phase_t { IDLE, FETCH, PARKED, BLOCKED, COPARKED, LOOPING, DONE, GONE };
 
 struct sub_ent;
 struct wake_awaiter : awaiter {
@@ -81,6 +82,10 @@ struct sub_ent {
     std::string result;              // result of a blocking / coroutine next
     bool co_done = false;
     bool report = false;             // coroutine: completion is reported as an event (not in the head of the op line)
+    std::optional<sub_t::iterator> it;  // iterator consumer (`blk <sid> it|itpost`)
+    std::mutex rec_mx;               // range-for consumer thread: what it has seen so far
+    std::vector<std::string> recs;
+    std::size_t recs_seen = 0;
     bool done0 = false;              // coroutine finished inside the operation that started it
     std::string result0, pos0;       // ... with this result / position
 };
@@ -93,7 +98,44 @@ suspend_point<void> wake_awaiter::fn(awaiter *me, void *) noexcept {
 static std::string fetch_str(sub_t &s, bool b) {
     if (!b) return "eof";
     if (!s_has_val(s)) return "v:?";     // "true" without a fetched value (blocking path of the pinned code)
-    return "v:" + std::to_string(s.value());
+    // the value is read through both overloads of value(); they must agree
+    int v = s.value();
+    int cv = static_cast<const sub_t &>(s).value();
+    if (v != cv) return "v:?const";
+    return "v:" + std::to_string(v);
+}
+
+// one blocking next() in one of its spellings (the model step is the same; the spelling comes from the input line):
+//   bool    `bool(sub.next())`                      not     `if (!sub.next()) ...`        (next_awt::operator!)
+//   it      `it = sub.begin()` the first time, then `++it`; continue while `it != sub.end()`; value through `*it`, `it->`
+//   itpost  `it++` (returns the previous value in a `storage`)
+using iter_t = sub_t::iterator;
+static std::string blocking_next(sub_t &s, std::optional<iter_t> &it, const std::string &style) {
+    if (style == "not") {
+        if (!s.next()) return "eof";
+        return fetch_str(s, true);
+    }
+    if (style == "it" || style == "itpost") {
+        if (!it) {
+            // first use: `sub.begin()`, or the iterator's own one-argument constructor (it performs the first next() too)
+            if (style == "it") it.emplace(s.begin()); else it.emplace(s);
+        } else if (style == "itpost" && s_has_val(s)) {
+            int before = s.value();
+            auto st = (*it)++;
+            // (storage::operator* / operator-> do not compile when instantiated: const members returning `_v` as a
+            //  non-const reference / pointer — dead code in iterator.h; the member is read directly)
+            if (st._v != before) return "v:?postfix";
+        } else {
+            ++*it;
+        }
+        bool more = *it != s.end();
+        if (more == (*it == s.end())) return "v:?cmp";
+        if (!more) return "eof";
+        std::string r = fetch_str(s, true);
+        if (s_has_val(s) && (**it != s.value() || *it->operator->() != s.value())) return "v:?deref";
+        return r;
+    }
+    return fetch_str(s, bool(s.next()));
 }
 
 struct fire {
@@ -113,8 +155,14 @@ static void co_follow(ctx_t *c, int sid);
 // a listener coroutine: awaits next() of one subscriber and — `follow` >= 0 — as soon as it is resumed (by publish,
 // close or kick, i.e. *inside* their wake-up pass, outside the lock) goes straight into next() of another (or the
 // same) subscriber
-static fire co_next(ctx_t *c, sub_ent *e, int follow) {
-    bool b = co_await e->s->next();
+static fire co_next(ctx_t *c, sub_ent *e, int follow, bool negated = false) {
+    bool b;
+    if (negated) {
+        // `if (!co_await sub.next())` spelling
+        if (!co_await e->s->next()) b = false; else b = true;
+    } else {
+        b = co_await e->s->next();
+    }
     co_finished(c, e, b);
     if (follow >= 0) co_follow(c, follow);
 }
@@ -129,7 +177,7 @@ struct ctx_t {
     void begin_pass() {
         in_pass.clear();
         for (auto &e : subs)
-            if (e.phase == PARKED || e.phase == BLOCKED || e.phase == COPARKED) in_pass.push_back(e.sid);
+            if (e.phase == PARKED || e.phase == BLOCKED || e.phase == COPARKED || e.phase == LOOPING) in_pass.push_back(e.sid);
     }
     std::vector<std::string> evs;
     int dummy_target = 0;
@@ -172,6 +220,20 @@ struct ctx_t {
                 pev.emplace_back(e.sid, "b" + std::to_string(e.sid) + "=" + e.result + "@" + std::to_string(e.s->position()));
                 done_or_idle(e, e.result);
             }
+        }
+        // range-for consumers: wait until the thread is parked again (or has left the loop), then report what it saw
+        for (auto &e : subs) {
+            if (e.phase != LOOPING) continue;
+            std::size_t h = s_handle(*e.s);
+            while (!e.finished.load() && !q_parked(*q, h)) std::this_thread::yield();
+            bool fin = e.finished.load();
+            if (fin) e.thr.join();
+            {
+                std::lock_guard g(e.rec_mx);
+                for (; e.recs_seen < e.recs.size(); ++e.recs_seen)
+                    pev.emplace_back(e.sid, "b" + std::to_string(e.sid) + "=" + e.recs[e.recs_seen]);
+            }
+            if (fin) e.phase = DONE;
         }
         flush_events();
     }
@@ -237,7 +299,7 @@ static void run_case(std::istream &in, std::size_t maxlen, std::size_t minlen) {
             // anybody still parked now was not released by close (reported by the oracle as close-no-wake);
             // release blocked threads / coroutines by hand so that the process can go on
             for (auto &e : c.subs) {
-                if (e.phase != BLOCKED && e.phase != COPARKED) continue;
+                if (e.phase != BLOCKED && e.phase != COPARKED && e.phase != LOOPING) continue;
                 awaiter *a = nullptr;
                 {
                     std::lock_guard g((*c.q).*(&q_peek::_mx));
@@ -335,9 +397,9 @@ static void run_case(std::istream &in, std::size_t maxlen, std::size_t minlen) {
             if (!e || e->phase != IDLE) head << "bad";
             else {
                 e->finished.store(false);
-                e->thr = std::thread([e] {
-                    bool b = e->s->next();
-                    e->result = fetch_str(*e->s, b);
+                std::string style = w.size() > 2 ? w[2] : "bool";
+                e->thr = std::thread([e, style] {
+                    e->result = blocking_next(*e->s, e->it, style);
                     e->finished.store(true);
                 });
                 std::size_t h = s_handle(*e->s);
@@ -351,6 +413,29 @@ static void run_case(std::istream &in, std::size_t maxlen, std::size_t minlen) {
                     head << "blk " << a1 << " parked" << c.pos(*e);
                 }
             }
+        } else if (op == "rfor") {
+            // a consumer thread running `for (int &x : sub) ...` (begin / != end / * / ++ of generator_iterator) until
+            // end of stream; everything it sees is reported as events, in order
+            sub_ent *e = c.get(a1);
+            if (!e || e->phase != IDLE) head << "bad";
+            else {
+                e->finished.store(false);
+                e->phase = LOOPING;
+                e->thr = std::thread([e] {
+                    sub_t &s = *e->s;
+                    auto note = [e, &s](const std::string &t) {
+                        std::string r = t + "@" + std::to_string(s.position());
+                        std::lock_guard g(e->rec_mx);
+                        e->recs.push_back(r);
+                    };
+                    for (int &x : s) {
+                        note(s_has_val(s) && x == s.value() ? "v:" + std::to_string(x) : std::string("v:?"));
+                    }
+                    note("eof");
+                    e->finished.store(true);
+                });
+                head << "rfor " << a1;
+            }
         } else if (op == "co" || op == "chain") {
             // chain <sid> <sid2>: coroutine awaiting next() of sid and then, at once, next() of sid2
             sub_ent *e = c.get(a1);
@@ -362,7 +447,7 @@ static void run_case(std::istream &in, std::size_t maxlen, std::size_t minlen) {
                 e->done0 = false;
                 // a result that is there at once belongs to the head of this line (taken right then: the follow-up
                 // may move the same subscriber on before co_next returns)
-                co_next(&c, e, follow);
+                co_next(&c, e, follow, op == "co" && w.size() > 2 && w[2] == "not");
                 if (e->done0) {
                     head << op << " " << a1 << " " << e->result0 << e->pos0;
                 } else {
@@ -453,16 +538,30 @@ static void run_threads(std::istream &in, std::size_t maxlen, std::size_t minlen
             sub_t &s = *subs[i];
             at_start.fetch_add(1);
             while (!go.load()) std::this_thread::yield();
-            while (true) {
-                bool was_closed = closed.load();
-                bool b = s.next();
-                if (!b) {
-                    recs[i].eof_closed_drained = was_closed;
-                    recs[i].eof_pos = s.position();
+            auto note = [&] { recs[i].got.emplace_back(s.position(), s_has_val(s) ? s.value() : -1); };
+            // consumer style by thread index: bool(next()) / !next() / range-for / explicit iterator with postfix ++
+            switch (i % 4) {
+                case 0:
+                    while (s.next()) note();
                     break;
-                }
-                recs[i].got.emplace_back(s.position(), s_has_val(s) ? s.value() : -1);
+                case 1:
+                    while (true) {
+                        if (!s.next()) break;
+                        note();
+                    }
+                    break;
+                case 2:
+                    for (int &x : s) {
+                        if (s_has_val(s) && x != static_cast<const sub_t &>(s).value()) recs[i].got.emplace_back(s.position(), -1);
+                        else note();
+                    }
+                    break;
+                default:
+                    for (auto it = s.begin(); it != s.end(); it++) note();
+                    break;
             }
+            recs[i].eof_closed_drained = closed.load();
+            recs[i].eof_pos = s.position();
         });
     }
     // value published at stream position p (1-based) is 1000+p
